@@ -170,6 +170,41 @@ Theorem spline0_outside : order = 0 -> num_le (NFloat lo) q && num_le q (NFloat 
 Proof.
   intros Ho H. rewrite spline0_unfold by assumption. rewrite H. destruct ex; rewrite ?andb_true_r, ?andb_false_r; reflexivity.
 Qed.
+
+(* ---- order 1 (coordinates used as given) ---- *)
+Lemma spline1_unfold : order = 1 ->
+  spline order ex points q =
+    if num_le (fst p0) q && num_le q (fst pl) then
+      if num_eq q (fst pl) then Ok (snd pl)
+      else match first_greater pts q 0 with
+           | None => Err EValue
+           | Some i => linear_func q (fst (nth_pt pts (i - 1))) (fst (nth_pt pts i)) (snd (nth_pt pts (i - 1))) (snd (nth_pt pts i))
+           end
+    else if num_gt q (fst pl) && ex then
+      linear_func q (fst (nth_pt pts (List.length pts - 2))) (fst pl) (snd (nth_pt pts (List.length pts - 2))) (snd pl)
+    else if num_lt q (fst p0) && ex then linear_func q (fst p0) (fst (nth_pt pts 1)) (snd p0) (snd (nth_pt pts 1))
+    else Err ECalibration.
+Proof.
+  clear Hlo Hhi. intros ->. unfold spline. cbn [Z.ltb Z.compare]. rewrite Hsorted.
+  destruct pts as [|a t] eqn:E; [discriminate|]. injection Hp0 as <-. rewrite Hpl.
+  cbn [Z.eqb bind]. reflexivity.
+Qed.
+
+(* at the largest point: its calibrated value, as given *)
+Theorem spline1_at_max : order = 1 -> num_le (fst p0) q = true -> num_le q (fst pl) = true -> num_eq q (fst pl) = true ->
+  spline order ex points q = Ok (snd pl).
+Proof. intros Ho H1 H2 H3. rewrite spline1_unfold by assumption. now rewrite H1, H2, H3. Qed.
+
+(* in range, below the largest point: the line through the point preceding the first point that exceeds q, and that point *)
+Theorem spline1_in_range i : order = 1 ->
+  num_le (fst p0) q = true -> num_le q (fst pl) = true -> num_eq q (fst pl) = false ->
+  first_greater pts q 0 = Some i ->
+  spline order ex points q = linear_func q (fst (nth_pt pts (i - 1))) (fst (nth_pt pts i)) (snd (nth_pt pts (i - 1))) (snd (nth_pt pts i)) /\
+  num_gt (fst (nth_pt pts i)) q = true /\ forall j, (j < i)%nat -> num_gt (fst (nth_pt pts j)) q = false.
+Proof.
+  intros Ho H1 H2 H3 Hfg. rewrite spline1_unfold by assumption. rewrite H1, H2, H3, Hfg. cbn [andb]. split; [reflexivity|].
+  apply first_greater_spec in Hfg as (_ & Hg & Hlt). rewrite Nat.sub_0_r in *. unfold nth_pt. auto.
+Qed.
 End Spline.
 
 (* ---------- enumerations and booleans use the raw value only ---------- *)
